@@ -155,11 +155,12 @@ Definition t_count2 := Eval vm_compute in b ") / ".
 Definition t_count3 := Eval vm_compute in b "));".
 Definition t_plus := Eval vm_compute in b " + ".
 Definition t_times := Eval vm_compute in b " * ".
-Definition jk_var := Eval vm_compute in b "__var".
+(* REPAIR C04-9: the bookkeeping keys of a loop frame cannot be Soy identifiers *)
+Definition jk_var := Eval vm_compute in b ".var".
 Definition n_changeNewlineToBr := Eval vm_compute in b "changeNewlineToBr".
 Definition n_insertWordBreaks := Eval vm_compute in b "insertWordBreaks".
-Definition jk_limit := Eval vm_compute in b "__limit".
-Definition jk_index := Eval vm_compute in b "__index".
+Definition jk_limit := Eval vm_compute in b ".limit".
+Definition jk_index := Eval vm_compute in b ".index".
 Definition n_ij := Eval vm_compute in b "ij".
 Definition n_id := Eval vm_compute in b "id".
 Definition n_noAutoescape := Eval vm_compute in b "noAutoescape".
